@@ -19,11 +19,17 @@ func init() {
 
 func r06_1(c *Ctx, r *Report) {
 	const rule = "R06.1"
-	r.rule(rule, "The four in-year views use one predicate. GetMonthsInYear, GetDayCount, GetMonth and GetLeapMonth each go through lunarYear.months — directly, or through an unexported helper (or GetMonthsInYear) that does and is checked the same way; the body of the loop is followed by the evaluator for a month of the object's own year or of the neighbouring year, leap or not, with the requested number or another: the month is admitted (pushed, appended, added to the count, returned) exactly when m.GetYear() == lunarYear.year and the view's own conjunct holds, GetLeapMonth returns the month number without its sign, a month that is not admitted leaves the running result untouched, and the accumulating views never leave the loop from its body (months 4, leap 4, 12 and leap 12 are followed). Necessary for 'reported leap month and day counts match the table'.")
+	r.rule(rule, "The four in-year views use one predicate. GetMonthsInYear, GetDayCount, GetMonth and GetLeapMonth are followed by the evaluator (a model of container/list: New, PushBack/Front, PushBackList, Remove, Front, Back, Next, Prev, Len; loops as tables over the iteration number; helpers inline) on four checker-made month tables — no leap month, a leap 4th, a leap 12th closing the year, leap months that belong to the neighbouring years at the head and tail of the table: the months listed are exactly those of the object's own year in table order, the day count is their sum, GetMonth(n) is the first of them with number n (ten requests, among them leap, absent and zero) or nil, GetLeapMonth the number of the first leap one without its sign or 0, and the year's own table is left as it was. A view the evaluator cannot follow is decided by the analysis of its loop body instead: GetMonthsInYear, GetDayCount, GetMonth and GetLeapMonth each go through lunarYear.months — directly, or through an unexported helper (or GetMonthsInYear) that does and is checked the same way; the body of the loop is followed by the evaluator for a month of the object's own year or of the neighbouring year, leap or not, with the requested number or another: the month is admitted (pushed, appended, added to the count, returned) exactly when m.GetYear() == lunarYear.year and the view's own conjunct holds, GetLeapMonth returns the month number without its sign, a month that is not admitted leaves the running result untouched, and the accumulating views never leave the loop from its body (months 4, leap 4, 12 and leap 12 are followed). Necessary for 'reported leap month and day counts match the table'.")
 	checked := map[*ssa.Function]bool{}
 	for _, name := range []string{"GetMonthsInYear", "GetDayCount", "GetMonth", "GetLeapMonth"} {
 		fn := c.Fn(r, rule, "calendar.(*LunarYear)."+name)
 		if fn == nil {
+			continue
+		}
+		// first: the whole view followed on stated month tables (a model of container/list); the analysis of the loop
+		// body below is the fall-back for a view the evaluator cannot follow
+		if bad, cases, followed := monthViewsByEvaluation(c, fn, name); followed {
+			r.check(len(bad) == 0 && cases > 0, rule, fname(fn)+" on stated month tables", c.fnPos(fn), fmt.Sprintf("%d cases (no leap month, a leap 4th, a leap 12th, leap months of the neighbouring years; GetMonth for ten requests each); deviations: %v", cases, headList(bad, 3)))
 			continue
 		}
 		kind := "accumulate"
